@@ -1,0 +1,98 @@
+//go:build verif
+
+// Contracts for the deductive verifier under /verif (comment-only; never compiled into oxy).
+package memmetrics
+
+// ---- C17: rolling counters -------------------------------------------------------------------
+// Time is integer nanoseconds since the Unix epoch; time.Time.Truncate works relative to the zero time ZT.
+// slot(t, r)   = index of the resolution-sized slot containing t
+// bkt(s, r, n) = the bucket of the values array that the code assigns to slot s (definition = what getBucket computes)
+// gsum[s]      = ghost: sum of the increments made while the clock was in slot s
+
+//@ spec slot(t int, r int) int
+//@ axiom slot_def: forall t int, r int :: r >= 1 ==> slot(t, r) == (t - zerotime) / r
+//@ spec bkt(s int, r int, n int) int
+//@ axiom bkt_def: forall s int, r int, n int :: r >= 1 && n >= 1 ==> bkt(s, r, n) == ((zerotime + s * r) / 1000000000) % n
+
+//@ lemma slot_step: forall a int, b int, r int {slot(a, r), slot(b, r)} :: r >= 1 && a == b - r ==> slot(a, r) == slot(b, r) - 1
+//@ lemma trunc_after: forall t1 int, t2 int, r int {slot(t1, r), slot(t2, r)} :: r >= 1 ==> ((t1 - ((t1 - zerotime) % r) > t2 - ((t2 - zerotime) % r)) <==> slot(t1, r) > slot(t2, r))
+//@ lemma slot_shift: forall t int, k int, r int {slot(t - k * r, r)} :: r >= 1 ==> slot(t - k * r, r) == slot(t, r) - k
+//@ lemma slot_monotone: forall t1 int, t2 int, r int {slot(t1, r), slot(t2, r)} :: r >= 1 && t1 <= t2 ==> slot(t1, r) <= slot(t2, r)
+//@ lemma slot_start: forall t int, r int :: r >= 1 ==> zerotime + slot(t, r) * r <= t && t < zerotime + (slot(t, r) + 1) * r
+//@ lemma bkt_range: forall s int, r int, n int :: r >= 1 && n >= 1 ==> 0 <= bkt(s, r, n) && bkt(s, r, n) < n
+//@ lemma bkt_injective: forall s1 int, s2 int, r int, n int :: r >= 1000000000 && n >= 1 && 0 < s1 - s2 && s1 - s2 < n ==> bkt(s1, r, n) != bkt(s2, r, n)
+//@ lemma window_covers: forall now int, r int, n int, t int :: r >= 1 && n >= 1 && now - (n - 1) * r <= t && t <= now ==> slot(now, r) - n < slot(t, r) && slot(t, r) <= slot(now, r)
+//@ lemma window_within: forall now int, r int, n int, t int :: r >= 1 && n >= 1 && slot(now, r) - n < slot(t, r) && slot(t, r) <= slot(now, r) ==> now - n * r < t && t < zerotime + (slot(now, r) + 1) * r
+
+//@ pred cfgOK(c *RollingCounter) = c != nil && c.resolution >= 1000000000 && len(c.values) >= 1 && c.lastUpdated <= lastclock
+//@ pred sl(c *RollingCounter, t int) = slot(t, c.resolution)
+//@ pred bk(c *RollingCounter, s int) = bkt(s, c.resolution, len(c.values))
+//@ pred inWindow(c *RollingCounter, s int, t int) = sl(c, t) - len(c.values) < s && s <= sl(c, t)
+//@ pred RC(c *RollingCounter) = (forall s int :: inWindow(c, s, c.lastUpdated) ==> c.values[bk(c, s)] == c.gsum[s]) && (forall s int :: s > sl(c, c.lastUpdated) ==> c.gsum[s] == 0)
+//@ pred cleanAt(c *RollingCounter, t int) = forall s int :: inWindow(c, s, t) ==> c.values[bk(c, s)] == c.gsum[s]
+
+//@ type RollingCounter
+//@   extsync
+//@   mutators Inc Count Reset Clone Append cleanup incBucketValue
+//@   immutable resolution
+//@   ghost gsum map[int]int
+
+//@ spec vsum(c *RollingCounter, k int) int reads RollingCounter.values elems(int)
+//@ axiom vsum_zero: forall c *RollingCounter :: vsum(c, 0) == 0
+//@ axiom vsum_step: forall c *RollingCounter, k int :: 1 <= k && k <= len(c.values) ==> vsum(c, k) == vsum(c, k - 1) + c.values[k - 1]
+
+//@ func (*RollingCounter).getBucket
+//@   props C17
+//@   onlyaxioms slot_def bkt_def
+//@   requires c != nil && c.resolution >= 1000000000 && len(c.values) >= 1 && t >= c.resolution
+//@   ensures bucket_of_slot: result == bkt(slot(t, c.resolution), c.resolution, len(c.values))
+//@   ensures in_range: 0 <= result && result < len(c.values)
+
+//@ func (*RollingCounter).cleanup
+//@   props C17
+//@   assume clock_stable
+//@   onlyaxioms slot_step trunc_after slot_monotone bkt_range bkt_injective
+//@   requires cfgOK(c) && RC(c) && lastclock >= (len(c.values) + 1) * c.resolution
+//@   modifies elems(c.values)
+//@   ensures window_clean: cleanAt(c, lastclock)
+//@   ensures nothing_newer: forall s int :: s > sl(c, c.lastUpdated) ==> c.gsum[s] == 0
+//@   loop 1 invariant 0 <= i && i <= len(c.values) && cfgOK(c) && len(c.values) == old(len(c.values))
+//@   loop 1 invariant slot(lastclock + (-1 * i) * c.resolution, c.resolution) == sl(c, lastclock) - i
+//@   loop 1 invariant forall s int :: sl(c, lastclock) - i < s && s <= sl(c, lastclock) ==> s > sl(c, c.lastUpdated) && c.values[bk(c, s)] == 0
+//@   loop 1 invariant forall s int :: inWindow(c, s, c.lastUpdated) && s > sl(c, lastclock) - len(c.values) ==> c.values[bk(c, s)] == c.gsum[s]
+//@   loop 1 invariant forall s int :: s > sl(c, c.lastUpdated) ==> c.gsum[s] == 0
+//@   loop 1 decreases len(c.values) - i
+
+//@ func (*RollingCounter).incBucketValue
+//@   props C17
+//@   assume clock_stable
+//@   onlyaxioms slot_monotone bkt_range bkt_injective
+//@   requires cfgOK(c) && cleanAt(c, lastclock) && lastclock >= (len(c.values) + 1) * c.resolution && (forall s int :: s > sl(c, c.lastUpdated) ==> c.gsum[s] == 0)
+//@   modifies elems(c.values), c.lastUpdated, c.countedBuckets, c.lastBucket, c.gsum[sl(c, lastclock)]
+//@   ghost_ensures c.gsum[sl(c, lastclock)] == old(c.gsum[sl(c, lastclock)]) + v
+//@   ensures keeps_invariant: RC(c) && c.lastUpdated == lastclock
+
+//@ func (*RollingCounter).Inc
+//@   props C17
+//@   assume clock_stable
+//@   onlyaxioms slot_monotone
+//@   requires cfgOK(c) && RC(c) && lastclock >= (len(c.values) + 1) * c.resolution
+//@   modifies elems(c.values), c.lastUpdated, c.countedBuckets, c.lastBucket, c.gsum[sl(c, lastclock)]
+//@   ensures counted_in_current_slot: c.gsum[sl(c, lastclock)] == old(c.gsum[sl(c, lastclock)]) + v
+//@   ensures keeps_invariant: RC(c) && cfgOK(c)
+
+//@ func (*RollingCounter).sum
+//@   props C17
+//@   onlyaxioms vsum_zero vsum_step
+//@   requires c != nil
+//@   ensures total: result == vsum(c, len(c.values))
+//@   loop 1 invariant -1 <= rangeindex && rangeindex < len(c.values) && out == vsum(c, rangeindex + 1)
+
+//@ func (*RollingCounter).Count
+//@   props C17
+//@   assume clock_stable
+//@   onlyaxioms slot_monotone
+//@   requires cfgOK(c) && RC(c) && lastclock >= (len(c.values) + 1) * c.resolution
+//@   modifies elems(c.values)
+//@   ensures sum_of_buckets: result == vsum(c, len(c.values))
+//@   ensures buckets_are_window: cleanAt(c, lastclock)
